@@ -264,6 +264,17 @@ def run(ctx):
         ctx.case(("small-signal-default", n), nontrivial=True, tag="real/small-signal/default-tolerances")
         for m in bad:
             viol.append((c, "small-signal", m, {}))
+    # the coupled driver hands the flow path the inner-wall ring of a 3-D tube: exactly the nt real columns (no
+    # periodic ghost column), otherwise the fluid heat pick-up -- and with it every downstream tube -- depends on where
+    # the hot side sits relative to the seam, and rotating the data no longer just rotates the solution
+    try:
+        import c14
+        sl_bad = c14.slicing_check(ctx, rng, 6 if ctx.quick() else 40)
+        for desc, what in sl_bad[:2]:
+            viol.append((None, "coupled-ring", "add_panel_from_object (coupled driver): the flow path does not receive exactly the real "
+                         "theta columns of the tubes' inner wall (%s) for %s" % (what, desc), {}))
+    except ImportError:
+        pass
     ctx.obligation("the real solver completed on at least 80% of the generated cases (a check that skips everything proves nothing)",
                    nraised * 5 <= n_real, "%d of %d raised" % (nraised, n_real))
     if nraised * 5 > n_real:
@@ -271,6 +282,9 @@ def run(ctx):
     ctx.obligation("property predicate (rotation equivariance, 1D=2D=3D on symmetric data, superposition) on real solves",
                    not viol, "%d failures; first: %s" % (len(viol), viol[0][1:3] if viol else ""))
     for c, what, detail, extra in viol[:10]:
+        if c is None:
+            ctx.violation(detail, {"check": what, "rerun": "harness/c14.py slicing_check"}, signature="c12:" + what)
+            continue
         ctx.violation("real thermal solve: " + detail, dict({"case": c.to_json(), "check": what}, **extra), signature="c12:" + what)
     if not ctx.violations and (mism or not thm_ok):
         ctx.violation("C12 theorem or correspondence no longer checks",
@@ -281,6 +295,14 @@ def run(ctx):
 
 def replay(obj):
     r = obj["replay"]
+    if r.get("check") == "coupled-ring":
+        import random
+        import c14
+        bad = c14.slicing_check(common.Ctx("C12", "quick", 0), random.Random(0), 12)
+        for b in bad[:3]:
+            print("FAILS:", b)
+        print("property violated on this input" if bad else "property holds on this input")
+        return 1 if bad else 0
     if "case" not in r:
         print("replay names no input:", list(r))
         return 1
